@@ -20,3 +20,5 @@ pub mod polynomial;
 pub mod prime;
 pub mod prime_decomp;
 pub mod resultant;
+#[cfg(feature = "verif-hooks")]
+pub mod verif_hooks;
